@@ -455,6 +455,8 @@ class Interp:
                     t = self.truth(term, q)
                     if t is None:
                         q2 = q.fork()
+                        q2.ev("fork", term, False, "forked")
+                        q.ev("fork", term, True, "forked")
                         self.assume(term, False, q2)
                         results.append(("value", q2, FALSE))
                         self.assume(term, True, q)
@@ -487,6 +489,8 @@ class Interp:
                     if t is None:
                         p3 = p2.fork()
                         # short-circuit branch
+                        p3.ev("fork", v, not is_and, "forked")
+                        p2.ev("fork", v, is_and, "forked")
                         self.assume(v, not is_and, p3)
                         results.append(("value", p3, v if v[0] != "cmp" else ("const", not is_and)))
                         self.assume(v, is_and, p2)
@@ -1034,6 +1038,7 @@ class Interp:
 
     def s_Assert(self, st, path):
         outs = []
+        n0 = len(path.events)
         for k, p, v in self.eval(st.test, path):
             if k == "raise":
                 outs.append(Outcome("raise", p, v))
@@ -1051,6 +1056,8 @@ class Interp:
                 outs.append(Outcome("normal", p))
             elif t:
                 outs.append(Outcome("normal", p))
+            elif not self.assert_raises and any(ev[0] in ("fork", "branch") and ev[-1] == "forked" for ev in p.events[n0:]):
+                continue  # assertions are assumed to hold: the falsifying fork is infeasible
             else:
                 e = exc_value("ext:builtins.AssertionError", ("assert", st.lineno))
                 p.ev("raise", e, None, st.lineno)
